@@ -37,7 +37,7 @@ Definition vpc_ok (c : cfg) (s : sys) (x : tstate) : Prop :=
   | WSlotSeg | WCursor => ticket s x /\ Cov s (t_view x)
   | WUnlockSeg | WUnlock => Cov s (t_view x)
   | RRead => vcov s (t_view x) (CSlot (t_idx x mod cap c)) /\
-             vcov s (t_view x) (CPay (s_wr s (c_pre c + t_cnt x)))
+             vcov s (t_view x) (CPay (s_wr s (t_start x + t_cnt x)))
   | KSeg | KLoad | KWaitOp | KBlocked => vcov s (t_view x) CRc
   | KCheck => vcov s (t_view x) CRc /\
               (s_rc s <> t_pos x -> vcov s (t_view x) (CSlot (s_rc s)) /\
@@ -106,7 +106,7 @@ Definition untouched (c : cfg) (s : sys) (x : tstate) (tc : pcell) : Prop :=
   | WAcq | WFailSeg | WYield | WRetrySeg => CPay (t_msg x) <> tc
   | WSlotSeg | WCursor => CPay (t_msg x) <> tc /\ covsafe s tc
   | WUnlockSeg | WUnlock => covsafe s tc
-  | RRead => CSlot (t_idx x mod cap c) <> tc /\ CPay (s_wr s (c_pre c + t_cnt x)) <> tc
+  | RRead => CSlot (t_idx x mod cap c) <> tc /\ CPay (s_wr s (t_start x + t_cnt x)) <> tc
   | KSeg | KLoad | KWaitOp | KBlocked => CRc <> tc
   | KCheck => CRc <> tc /\ (s_rc s <> t_pos x -> CSlot (s_rc s) <> tc /\ CPay (s_wr s (s_nt s)) <> tc)
   | KUnlock => CRc <> tc /\ CPay (t_ret x) <> tc
@@ -162,7 +162,7 @@ Lemma vthr_publish c s s' x m :
   vthr_ok c s x -> s_ver s' = s_ver s -> s_nw s' = s_nw s + 1 -> s_wr s' = zupd (s_wr s) (s_nw s) m ->
   s_begun s' = s_begun s -> s_rc s' = s_rc s -> s_nt s' = s_nt s ->
   crit (t_pc x) = false -> (c_wm c = WSingle -> wpc (t_pc x) = false) ->
-  (t_pc x = RRead -> 0 <= c_pre c + t_cnt x < s_nw s) ->
+  (t_pc x = RRead -> 0 <= t_start x + t_cnt x < s_nw s) ->
   (t_pc x = KCheck -> s_rc s <> t_pos x -> 0 <= s_nt s < s_nw s) ->
   vthr_ok c s' x.
 Proof.
